@@ -18,7 +18,7 @@ EXPLANATION = (
     "Decided: R01.1 decode, decode_group, encode(char*), encode(ostream&), print: the descent into a group is control-dependent on "
     "`group trait` ∧ has_group_count(field); R01.2 for each instantiated Field<T,N>: print(char*) stores through its argument or calls a "
     "renderer on every path (TZTimeOnly/TZTimestamp are stubs: reported, not part of FIX42UTEST/FIX44), Field(const char*) reads its "
-    "argument; R01.3 integer sign alphabet (same rule as C08); R01.4 Field<fp_type,N>(text)._precision derives from the text. NOT "
+    "argument; R01.3 integer sign alphabet (same rule as C08); R01.4 Field<fp_type,N>(text)._precision derives from the text. R01.7 Message::decode runs the header, body and trailer decoders on every path, chained through their returned offsets, and returns the trailer decoder's result. NOT "
     "decided: value equality.")
 
 MB = 'FIX8::MessageBase::'
@@ -97,3 +97,49 @@ def run(ctx):
     # R01.6 every present field is encoded: the position index keeps all fields that share a position (rule of C02 R02.5)
     c02.pos_type_rule(ctx, prog, 'R01.6')
     ctx.floor('R01.5', 2)
+    # ---------------- R01.7 Message::decode chains the three section decoders on EVERY path: header at the caller's offset, body where the header decoder
+    # stopped, trailer where the body decoder stopped, and returns what the trailer decoder returns (the factory compares that with the position of the CheckSum;
+    # `ignore` only says how many bytes at the end are not the decoders' business, it never excuses the trailer).
+    mds = [g for g in prog.fns('FIX8::Message::decode') if len(g.param_ids) == 4]
+    ctx.need(len(mds) == 1, 'Message::decode(from, offset, ignore, permissive) not found')
+    md = mds[0]
+    ctx.saw(md)
+    mc = md.cfg
+    secs = [c for c in md.calls() if c.callee_qp == MB + 'decode' and mc.has_vertex(c)]
+
+    def owner(c):
+        o = c.obj.strip(casts=True) if c.obj is not None else None
+        if o is None or o.k == 'CXXThisExpr':
+            return 'body'
+        for x in o.walk():
+            if x.k == 'MemberExpr' and x.decl.get('n') in ('_header', '_trailer'):
+                return x.decl['n'][1:]
+        return 'body'
+    by = {owner(c): c for c in secs}
+    ctx.need(set(by) == {'header', 'body', 'trailer'} and len(secs) == 3, 'Message::decode: the three section decode calls were not found (%s)' % sorted(by))
+    hv, bv, tv = (mc.vertex_of(by[k]) for k in ('header', 'body', 'trailer'))
+    every = all(q.escape_path(mc, [mc.entry], {v}) is None for v in (hv, bv, tv))
+    order = mc.dominates(hv, bv) and mc.dominates(bv, tv)
+
+    def from_result(arg, call):
+        a = arg.strip(casts=True)
+        if a == call:
+            return True
+        if a.k == 'DeclRefExpr' and a.decl is not None and a.decl.get('sc') == 'local':
+            ds = q.local_defs(md, a.declid)
+            return len(ds) == 1 and ds[0][2] is not None and ds[0][2].strip(casts=True) == call
+        return False
+    chained = q.refers_to_decl(by['header'].args[1], md.param_ids[1]) and from_result(by['body'].args[1], by['header']) and from_result(by['trailer'].args[1], by['body'])
+    rets7 = [n for (v, kind, n) in mc.exits() if kind == 'return' and n.children]
+    returns_trailer = bool(rets7) and all(from_result(n.children[0], by['trailer']) for n in rets7)
+    why = None
+    if not every:
+        why = 'a path through Message::decode skips one of the three section decoders (e.g. the trailer when `ignore` is non-zero): trailer fields such as ' \
+              'SignatureLength/Signature are then never decoded and the strict factory rejects a message the library encoded itself'
+    elif not order or not chained:
+        why = 'the section decoders are not chained header -> body -> trailer through their returned offsets'
+    elif not returns_trailer:
+        why = 'Message::decode does not return the trailer decoder\'s result on every path (`%s`)' % (rets7[0].children[0].text() if rets7 else '')
+    ctx.check(why is None, 'R01.7', 'FIX8::Message::decode#section-chain', md.loc,
+              'header, body and trailer are decoded on every path, each from the offset the previous one returned; the trailer decoder\'s result is returned', why)
+    ctx.floor('R01.7', 1)
